@@ -26,6 +26,7 @@ def encE : Err → E V
   | .mk 0 es => .obj "CollectedParseError" [("errors", .seq .list (encEs es))]
   | .mk 1 [] => .obj "OneOfViolatedError" []
   | .mk 2 [] => .obj "NegateViolatedError" []
+  | .mk 3 [] => .obj "ParseError" []
   | e => .obj (if e.isParseError then "ParseError" else "Exception") [("err", .val (.inr e))]
 def encEs : List Err → List (E V)
   | [] => []
@@ -396,5 +397,455 @@ theorem C09_gen_any_of (W : World (V ⊕ Err)) (as : List (Arg V)) (o : Opts) (c
     · intro j a hj
       simp only [Nat.zero_add, hw.ty, hw.exact j a hj]
       cases a.exact v <;> rfl
+
+/-! ### `^` -/
+
+/-- the loop state of `^`: (early return, context, `error`, `result`, `val`, `xor`) -/
+abbrev XSt (V : Type) := Option (E V × Outcome (V ⊕ Err)) × E V × E V × E V × E V × E V
+
+/-- what the code's `xor` / `result` hold when the model's accumulator is `acc` -/
+def XorInv (acc : Option V) (res xo : E V) : Prop :=
+  xo.isNone = acc.isNone ∧ ∀ r, acc = some r → res = .val (.inl r)
+
+/-- the state the loop ends in, as far as the rest of the function reads it -/
+def XorFinal (o : Opts) (errs : List Err) (v : V) (as : List (Arg V)) (acc : Option V) (tmp : List Err) (s : XSt V) : Prop :=
+  match xorLoop o v as acc tmp with
+  | (_, tmp', true) =>
+    match handleError o ⟨errs, tmp'⟩ .oneOf with
+    | (c1, some e) => s.1 = some (encCtx o c1, .raise (encE e))
+    | (c1, none) => s.1 = none ∧ s.2.1 = encCtx o c1 ∧ s.2.2.2.2.2 = .none
+  | (acc', tmp', false) => s.1 = none ∧ s.2.1 = encCtx o ⟨errs, tmp'⟩ ∧ XorInv acc' s.2.2.2.1 s.2.2.2.2.2
+
+/-- one iteration of `^` -/
+def xorStep (o : Opts) (errs tmp : List Err) (v : V) (a : Arg V) (i : Nat) (ej res vj xo : E V) : ForInStep (XSt V) :=
+  match a.out o v with
+  | .error e => .yield (none, encCtx o ⟨errs, tmp ++ [e]⟩, ej, res, vj, xo)
+  | .ok r =>
+    if xo.isNone then .yield (none, encCtx o ⟨errs, tmp⟩, ej, .val (.inl r), .val (.inl r), .cls i)
+    else match handleError o ⟨errs, tmp⟩ .oneOf with
+      | (c1, some e) =>
+        .done (some (encCtx o c1, .raise (encE e)), encCtx o c1, .obj "OneOfViolatedError" [], res, .val (.inl r), .none)
+      | (c1, none) => .done (none, encCtx o c1, .obj "OneOfViolatedError" [], res, .val (.inl r), .none)
+
+/-- the loop of `^` on the code's own state -/
+def xorRun (o : Opts) (errs : List Err) (v : V) : List (Arg V) → Nat → List Err → E V → E V → E V → E V → XSt V
+  | [], _, tmp, ej, res, vj, xo => (none, encCtx o ⟨errs, tmp⟩, ej, res, vj, xo)
+  | a :: as, k, tmp, ej, res, vj, xo =>
+    match a.out o v with
+    | .error e => xorRun o errs v as (k + 1) (tmp ++ [e]) ej res vj xo
+    | .ok r =>
+      if xo.isNone then xorRun o errs v as (k + 1) tmp ej (.val (.inl r)) (.val (.inl r)) (.cls k)
+      else match handleError o ⟨errs, tmp⟩ .oneOf with
+        | (c1, some e) =>
+          (some (encCtx o c1, .raise (encE e)), encCtx o c1, .obj "OneOfViolatedError" [], res, .val (.inl r), .none)
+        | (c1, none) => (none, encCtx o c1, .obj "OneOfViolatedError" [], res, .val (.inl r), .none)
+
+theorem forIn_xor (g : E V → XSt V → M (V ⊕ Err) (ForInStep (XSt V))) (o : Opts) (errs : List Err) (v : V) :
+    ∀ (as : List (Arg V)) (k : Nat) (tmp : List Err) (ej res vj xo : E V),
+      (∀ (j : Nat) (a : Arg V) (tmp : List Err) (ej res vj xo : E V), as[j]? = some a →
+        g (.cls (k + j)) (none, encCtx o ⟨errs, tmp⟩, ej, res, vj, xo) = .ok (xorStep o errs tmp v a (k + j) ej res vj xo)) →
+      forIn ((List.range' k as.length).map OVal.cls) (none, encCtx o ⟨errs, tmp⟩, ej, res, vj, xo) g
+        = .ok (xorRun o errs v as k tmp ej res vj xo) := by
+  intro as
+  induction as with
+  | nil => intro k tmp ej res vj xo _; rfl
+  | cons a rest ih =>
+    intro k tmp ej res vj xo hg
+    have h0 := hg 0 a tmp ej res vj xo rfl
+    simp only [Nat.add_zero] at h0
+    have hg' : ∀ (j : Nat) (a' : Arg V) (tmp : List Err) (ej res vj xo : E V), rest[j]? = some a' →
+        g (.cls (k + 1 + j)) (none, encCtx o ⟨errs, tmp⟩, ej, res, vj, xo)
+          = .ok (xorStep o errs tmp v a' (k + 1 + j) ej res vj xo) := by
+      intro j a' tmp ej res vj xo hj
+      have := hg (j + 1) a' tmp ej res vj xo (by simpa using hj)
+      rwa [show k + (j + 1) = k + 1 + j by omega] at this
+    simp only [List.length_cons, List.range'_succ, List.map_cons, List.forIn_cons, h0, xorStep, xorRun]
+    cases hout : a.out o v with
+    | error e =>
+      simp only [bind, Except.bind]
+      exact ih (k + 1) (tmp ++ [e]) ej res vj xo hg'
+    | ok r =>
+      cases hx : xo.isNone
+      · simp only [Bool.false_eq_true, if_false]
+        cases hh : handleError o ⟨errs, tmp⟩ .oneOf with
+        | mk c1 x => cases x <;> rfl
+      · simp only [if_true, bind, Except.bind]
+        exact ih (k + 1) tmp ej _ _ _ hg'
+
+theorem xorRun_final (o : Opts) (errs : List Err) (v : V) :
+    ∀ (as : List (Arg V)) (k : Nat) (acc : Option V) (tmp : List Err) (ej res vj xo : E V),
+      XorInv acc res xo → XorFinal o errs v as acc tmp (xorRun o errs v as k tmp ej res vj xo) := by
+  intro as
+  induction as with
+  | nil =>
+    intro k acc tmp ej res vj xo hinv
+    simp [XorFinal, xorLoop, xorRun, hinv]
+  | cons a rest ih =>
+    intro k acc tmp ej res vj xo hinv
+    simp only [xorRun, XorFinal, xorLoop]
+    cases hout : a.out o v with
+    | error e => exact ih (k + 1) acc (tmp ++ [e]) ej res vj xo hinv
+    | ok r =>
+      cases acc with
+      | none =>
+        have hx : xo.isNone = true := by simpa using hinv.1
+        simp only [hx, if_true]
+        exact ih (k + 1) (some r) tmp ej _ _ _ ⟨rfl, fun r' h => by cases h; rfl⟩
+      | some r0 =>
+        have hx : xo.isNone = false := by simpa using hinv.1
+        simp only [hx, Bool.false_eq_true, if_false]
+        cases hh : handleError o ⟨errs, tmp⟩ .oneOf with
+        | mk c1 x => cases x <;> simp
+
+theorem C09_gen_one_of (W : World (V ⊕ Err)) (as : List (Arg V)) (o : Opts) (c : Ctx) (v : V)
+    (hw : WorldOk W as "^" o) :
+    Parse.logical_parse W (encCls "^" as.length) (.val (.inl v)) (encCtx o c)
+      = .ok (encCtx o (logicalXor as o c v).1,
+          match (logicalXor as o c v).2 with
+          | .ok r => .ret (.val (.inl r))
+          | .error e => .raise (encE e)) := by
+  gen_obligation "C09_gen_one_of: the regenerated code (Utv.Gen) is no longer equal to the hand model here" by
+    unfold Parse.logical_parse
+    have e1 : Obj.eq (V := V ⊕ Err) (.str "^") (.str "&") = .ok false := rfl
+    have e2 : Obj.eq (V := V ⊕ Err) (.str "^") (.str "|") = .ok false := rfl
+    have e3 : Obj.eq (V := V ⊕ Err) (.str "^") (.str "^") = .ok true := rfl
+    have ht : truthy (encCtx (V := V) o c) = .ok true := rfl
+    simp only [ht, ga_comb, ga_args, e1, e2, e3, iter, bind, Except.bind, pure, Except.pure, Bool.false_eq_true, if_false,
+      if_true]
+    obtain ⟨errors, tmp⟩ := c
+    have hf := xorRun_final o errors v as 0 none tmp .none (.val (.inl v)) .none .none ⟨rfl, fun r h => by cases h⟩
+    rw [List.range_eq_range', forIn_xor _ o errors v as 0 tmp]
+    rotate_left
+    · intro j a tmp' ej res vj xo hj
+      have hc := hw.conv o j a v hj
+      simp only [Nat.zero_add, hw.enter0, ga_tr, hc, xorStep]
+      cases hout : a.out o v with
+      | error e =>
+        simp [encOut, tryCatch, tryCatchThe, MonadExceptOf.tryCatch, Except.tryCatch, isA_encE, Exc.toVal, collect_tmp_eq]
+        rfl
+      | ok r =>
+        have hn : (OVal.obj "OneOfViolatedError" [] : E V) = encE Err.oneOf := rfl
+        simp only [encOut, tryCatch, tryCatchThe, MonadExceptOf.tryCatch, Except.tryCatch, ExceptT.run, OptionT.pure,
+          OptionT.run, OptionT.mk, StateT.pure, ExceptT.pure, ExceptT.mk, pure, Except.pure]
+        simp only [EarlyReturn.runK, Continue.runK, hn, C09_gen_handle_error]
+        cases xo.isNone
+        · cases hh : handleError o ⟨errors, tmp'⟩ .oneOf with
+          | mk c1 x => cases x <;> rfl
+        · rfl
+    generalize xorRun o errors v as 0 tmp .none (.val (.inl v)) .none .none = s' at hf ⊢
+    obtain ⟨ret, cx, ej, rs, vj, xo⟩ := s'
+    simp only [XorFinal] at hf
+    simp only [logicalXor]
+    generalize xorLoop o v as none tmp = R at hf ⊢
+    obtain ⟨acc', tmp', viol⟩ := R
+    cases viol with
+    | false =>
+      simp only at hf
+      obtain ⟨rfl, rfl, hinv⟩ := hf
+      cases acc' with
+      | none =>
+        have hx : xo.isNone = true := by simpa using hinv.1
+        simp only [hx, Bool.not_true, Bool.false_eq_true, if_false]
+        rw [C09_gen_raise_error W o _ v]
+        simp only [raiseError]
+        by_cases hb : (errors.isEmpty && tmp'.isEmpty) = true <;> simp [hb]
+      | some r =>
+        have hx : xo.isNone = false := by simpa using hinv.1
+        have hr : rs = .val (.inl r) := hinv.2 r rfl
+        simp only [hx, hr, Bool.not_false, if_true, clear_tmp_eq]
+        rw [C09_gen_raise_error W o _ r]
+        simp only [raiseError]
+        cases errors <;> simp
+    | true =>
+      simp only at hf
+      cases hh : handleError o ⟨errors, tmp'⟩ .oneOf with
+      | mk c1 x =>
+        rw [hh] at hf
+        cases x with
+        | some e =>
+          simp only at hf
+          subst hf
+          simp [afterHandle, hh]
+        | none =>
+          simp only at hf
+          obtain ⟨rfl, rfl, rfl⟩ := hf
+          have hx : (OVal.none : E V).isNone = true := rfl
+          simp only [hx, Bool.not_true, Bool.false_eq_true, if_false, afterHandle, hh]
+          rw [C09_gen_raise_error W o _ v]
+          obtain ⟨e1', t1'⟩ := c1
+          simp only [raiseError]
+          by_cases hb : (e1'.isEmpty && t1'.isEmpty) = true <;> simp [hb]
+
+/-! ### `&`
+
+The code wraps an exception that is not a `ParseError` into `ParseError(type=con, value=value, origin_exc=e)`; the model's
+`Err.wrapParse` yields the bare `.mk parseErrorId []`.  The theorem is therefore stated after `forget`, which drops exactly
+those three attributes of a `ParseError` object (everywhere: the wrapped error also ends up in `context.errors` and inside a
+`CollectedParseError`) and leaves everything else as it is. -/
+
+mutual
+def forget : E V → E V
+  | .seq k xs => .seq k (forgetL xs)
+  | .dict kvs => .dict (forgetD kvs)
+  | .obj c attrs => .obj c (forgetA (c == "ParseError") attrs)
+  | x => x
+def forgetL : List (E V) → List (E V)
+  | [] => []
+  | x :: xs => forget x :: forgetL xs
+def forgetD : List (E V × E V) → List (E V × E V)
+  | [] => []
+  | (k, x) :: r => (forget k, forget x) :: forgetD r
+def forgetA (wrap : Bool) : List (String × E V) → List (String × E V)
+  | [] => []
+  | (n, x) :: r =>
+    if wrap && n == "type" then forgetA wrap r              -- `type=con`
+    else if wrap && n == "value" then forgetA wrap r        -- `value=value`
+    else if wrap && n == "origin_exc" then forgetA wrap r   -- `origin_exc=e`
+    else (n, forget x) :: forgetA wrap r
+end
+
+def forgetOut : E V × Outcome (V ⊕ Err) → E V × Outcome (V ⊕ Err)
+  | (c, .ret x) => (forget c, .ret (forget x))
+  | (c, .raise x) => (forget c, .raise (forget x))
+
+mutual
+theorem forget_encE : ∀ e : Err, forget (encE (V := V) e) = encE e
+  | .mk c es => by
+    unfold encE
+    split
+    · rename_i heq
+      injection heq with _ h2
+      subst h2
+      simp [forget, forgetA, forget_encEs es]
+    · simp [forget, forgetA]
+    · simp [forget, forgetA]
+    · simp [forget, forgetA]
+    · split <;> simp [forget, forgetA]
+theorem forget_encEs : ∀ es : List Err, forgetL (encEs (V := V) es) = encEs es
+  | [] => rfl
+  | e :: es => by simp [encEs, forgetL, forget_encE e, forget_encEs es]
+end
+
+theorem forgetL_append (a b : List (E V)) : forgetL (a ++ b) = forgetL a ++ forgetL b := by
+  induction a with
+  | nil => rfl
+  | cons x a ih => simp [forgetL, ih]
+
+/-- a context whose lists hold arbitrary objects (the wrapped error is one) -/
+def encCtxL (o : Opts) (es ts : List (E V)) : E V :=
+  .obj "RuntimeContext" [("errors", .seq .list es), ("tmp_errors", .seq .list ts), ("options", encO o)]
+
+theorem encCtx_eq (o : Opts) (c : Ctx) : encCtx (V := V) o c = encCtxL o (encEs c.errors) (encEs c.tmp) := rfl
+
+/-- which way `handle_error` goes depends on the options and the lengths only -/
+inductive HDec | raiseSelf | raiseAll | go
+
+def hdec (o : Opts) (nErrors : Nat) : HDec :=
+  if !o.collectErrors then .raiseSelf
+  else match o.maxErrors with
+    | some m => if nErrors + 1 ≥ m then .raiseAll else .go
+    | none => .go
+
+theorem handle_error_obj (W : World (V ⊕ Err)) (o : Opts) (es ts : List (E V)) (x : E V) :
+    Options.handle_error W (encCtxL o es ts) x (.bool false)
+      = .ok (encCtxL o (es ++ [x]) ts, match hdec o es.length with
+        | .raiseSelf => .raise x
+        | .raiseAll => .raise (.obj "CollectedParseError" [("errors", .seq .list (es ++ x :: ts))])
+        | .go => .ret .none) := by
+  obtain ⟨ndl, nec, collect, me, ov⟩ := o
+  cases collect <;> cases me <;>
+    obj_simp [Options.handle_error, encCtxL, encO, encOptNat, getattr, setattr, lookupAttr, setAttrL, append, OVal.isNone,
+      hdec, toList, iter, extend, len, ge, le, intOf?]
+  rename_i m
+  by_cases hm : m ≤ es.length + 1
+  · have hm' : (m : Int) ≤ (es.length : Int) + 1 := by omega
+    cases ts <;> simp [hm, hm']
+  · have hm' : ¬ (m : Int) ≤ (es.length : Int) + 1 := by omega
+    simp [hm, hm']
+
+theorem raise_error_obj (W : World (V ⊕ Err)) (o : Opts) (es ts : List (E V)) :
+    Options.raise_error W (encCtxL o es ts)
+      = .ok (encCtxL o es ts, if es.isEmpty && ts.isEmpty then .ret .none
+        else .raise (.obj "CollectedParseError" [("errors", .seq .list (es ++ ts))])) := by
+  cases es <;> cases ts <;>
+    obj_simp [Options.raise_error, encCtxL, getattr, lookupAttr, toList, iter, extend]
+
+/-- the conditions of `&` run on the combinator's own context: `context.transformer(value, con_i)` is the model's `Arg.run` -/
+structure AllWorld (W : World (V ⊕ Err)) (as : List (Arg V)) (o : Opts) : Prop where
+  run : ∀ (c : Ctx) (i : Nat) (a : Arg V) (v : V), as[i]? = some a →
+    W.method "transformer" (encCtx o c) [.val (.inl v), .cls i]
+      = .ok (encCtx o (a.run o c v).1, match (a.run o c v).2 with
+        | .ok r => .ret (.val (.inl r))
+        | .error e => .raise (encE e))
+
+/-- the loop state of `&`: (early return, context, `value`, `e`) -/
+abbrev ASt (V : Type) := Option (E V × Outcome (V ⊕ Err)) × E V × E V × E V
+
+/-- the exception `handle_error` is given: a `ParseError` as it is, anything else wrapped with its payload -/
+def wrapObj (k : Nat) (v : V) (e : Err) : E V :=
+  if e.isParseError then encE e
+  else .obj "ParseError" [("type", .cls k), ("value", .val (.inl v)), ("origin_exc", encE e)]
+
+/-- the state the loop ends in when condition `k` raised `e` in context `c'` -/
+def allErr (o : Opts) (k : Nat) (c' : Ctx) (v : V) (e : Err) : ASt V :=
+  let cx : E V := encCtxL o (encEs c'.errors ++ [wrapObj k v e]) (encEs c'.tmp)
+  match hdec o (encEs (V := V) c'.errors).length with
+  | .raiseSelf => (some (cx, .raise (wrapObj k v e)), cx, .val (.inl v), wrapObj k v e)
+  | .raiseAll =>
+    (some (cx, .raise (.obj "CollectedParseError"
+      [("errors", .seq .list (encEs c'.errors ++ wrapObj k v e :: encEs c'.tmp))])), cx, .val (.inl v), wrapObj k v e)
+  | .go => (none, cx, .val (.inl v), wrapObj k v e)
+
+def allStep (o : Opts) (k : Nat) (c : Ctx) (v : V) (a : Arg V) (ej : E V) : ForInStep (ASt V) :=
+  match a.run o c v with
+  | (c', .ok v') => .yield (none, encCtx o c', .val (.inl v'), ej)
+  | (c', .error e) => .done (allErr o k c' v e)
+
+def allRun (o : Opts) : List (Arg V) → Nat → Ctx → V → E V → ASt V
+  | [], _, c, v, ej => (none, encCtx o c, .val (.inl v), ej)
+  | a :: as, k, c, v, ej =>
+    match a.run o c v with
+    | (c', .ok v') => allRun o as (k + 1) c' v' ej
+    | (c', .error e) => allErr o k c' v e
+
+theorem forIn_all (g : E V → ASt V → M (V ⊕ Err) (ForInStep (ASt V))) (o : Opts) :
+    ∀ (as : List (Arg V)) (k : Nat) (c : Ctx) (v : V) (ej : E V),
+      (∀ (j : Nat) (a : Arg V) (c : Ctx) (v : V) (ej : E V), as[j]? = some a →
+        g (.cls (k + j)) (none, encCtx o c, .val (.inl v), ej) = .ok (allStep o (k + j) c v a ej)) →
+      forIn ((List.range' k as.length).map OVal.cls) (none, encCtx o c, .val (.inl v), ej) g
+        = .ok (allRun o as k c v ej) := by
+  intro as
+  induction as with
+  | nil => intro k c v ej _; rfl
+  | cons a rest ih =>
+    intro k c v ej hg
+    have h0 := hg 0 a c v ej rfl
+    simp only [Nat.add_zero] at h0
+    simp only [List.length_cons, List.range'_succ, List.map_cons, List.forIn_cons, h0, allStep, allRun]
+    cases hr : a.run o c v with
+    | mk c' res =>
+      cases res with
+      | error e => rfl
+      | ok v' =>
+        simp only [bind, Except.bind]
+        exact ih (k + 1) c' v' ej (fun j a' c v ej hj => by
+          have := hg (j + 1) a' c v ej (by simpa using hj)
+          rwa [show k + (j + 1) = k + 1 + j by omega] at this)
+
+/-- the end of the loop in the model's terms -/
+def AllFinal (o : Opts) (as : List (Arg V)) (c : Ctx) (v : V) (ej : E V) (s : ASt V) : Prop :=
+  match allLoop o as c v with
+  | (c', v', none) => s = (none, encCtx o c', .val (.inl v'), ej)
+  | (c', v', some e) => ∃ k, s = allErr o k c' v' e
+
+theorem allRun_final (o : Opts) :
+    ∀ (as : List (Arg V)) (k : Nat) (c : Ctx) (v : V) (ej : E V), AllFinal o as c v ej (allRun o as k c v ej) := by
+  intro as
+  induction as with
+  | nil => intro k c v ej; rfl
+  | cons a rest ih =>
+    intro k c v ej
+    simp only [AllFinal, allLoop, allRun]
+    cases hr : a.run o c v with
+    | mk c' res =>
+      cases res with
+      | error e => exact ⟨k, rfl⟩
+      | ok v' => exact ih (k + 1) c' v' ej
+
+/-- `exc.ParseError` and the classes utype/utils/exceptions.py derives from it -/
+abbrev peClasses : List String :=
+  ["ParseError", "TypeMismatchError", "InvalidInstance", "InvalidSubclass", "DiscriminatorMismatchError", "ConstraintError",
+    "ExceedError", "TupleExceedError", "AliasConflictError", "DepthExceedError", "ParamsExceedError", "ParamsLackError",
+    "AbsenceError", "DependenciesAbsenceError", "RecursionExceeded", "TransformError", "CollectedParseError",
+    "NegateViolatedError", "OneOfViolatedError"]
+
+theorem isinst_encE (e : Err) : isinstance (encE (V := V) e) peClasses = .ok e.isParseError := by
+  unfold encE
+  split
+  · simp [isinstance, Err.isParseError, Err.cls, Err.nonParseBase, pure, Except.pure]
+  · simp [isinstance, Err.isParseError, Err.cls, Err.nonParseBase, pure, Except.pure]
+  · simp [isinstance, Err.isParseError, Err.cls, Err.nonParseBase, pure, Except.pure]
+  · simp [isinstance, Err.isParseError, Err.cls, Err.nonParseBase, pure, Except.pure]
+  · split <;> simp_all [isinstance, pure, Except.pure]
+
+theorem forget_encO (o : Opts) : forget (encO (V := V) o) = encO o := by
+  cases hm : o.maxErrors <;> simp [encO, encOptNat, forget, forgetA, hm]
+
+theorem forget_ctxL (o : Opts) (es ts : List (E V)) : forget (encCtxL o es ts) = encCtxL o (forgetL es) (forgetL ts) := by
+  simp [encCtxL, forget, forgetA, forget_encO]
+
+theorem forget_encCtx (o : Opts) (c : Ctx) : forget (encCtx (V := V) o c) = encCtx o c := by
+  rw [encCtx_eq, forget_ctxL, forget_encEs, forget_encEs]
+
+theorem forget_wrap (k : Nat) (v : V) (e : Err) : forget (wrapObj k v e) = encE e.wrapParse := by
+  unfold wrapObj Err.wrapParse
+  cases e.isParseError
+  · simp [forget, forgetA]
+    rfl
+  · simp [forget_encE]
+
+theorem handleError_hdec (o : Opts) (c : Ctx) (x : Err) :
+    handleError o c x = match hdec o c.errors.length with
+      | .raiseSelf => (c.push x, some x)
+      | .raiseAll => (c.push x, some (.collected ((c.errors ++ [x]) ++ c.tmp)))
+      | .go => (c.push x, none) := by
+  unfold handleError hdec
+  cases o.collectErrors
+  · rfl
+  · cases o.maxErrors with
+    | none => rfl
+    | some m =>
+      simp only [Bool.not_true, Bool.false_eq_true, if_false, Ctx.push, List.length_append, List.length_cons, List.length_nil]
+      by_cases h : c.errors.length + 1 ≥ m <;> simp [h]
+
+theorem C09_gen_all_of (W : World (V ⊕ Err)) (as : List (Arg V)) (o : Opts) (c : Ctx) (v : V)
+    (hw : AllWorld W as o) :
+    (Parse.logical_parse W (encCls "&" as.length) (.val (.inl v)) (encCtx o c)).map forgetOut
+      = .ok (encCtx o (logicalAll as o c v).1,
+          match (logicalAll as o c v).2 with
+          | .ok r => .ret (.val (.inl r))
+          | .error e => .raise (encE e)) := by
+  gen_obligation "C09_gen_all_of: the regenerated code (Utv.Gen) is no longer equal to the hand model here" by
+    unfold Parse.logical_parse
+    have e1 : Obj.eq (V := V ⊕ Err) (.str "&") (.str "&") = .ok true := rfl
+    have ht : truthy (encCtx (V := V) o c) = .ok true := rfl
+    simp only [ht, ga_comb, ga_args, e1, iter, bind, Except.bind, pure, Except.pure, if_true]
+    have hf := allRun_final o as 0 c v .none
+    rw [List.range_eq_range', forIn_all _ o as 0 c v .none]
+    rotate_left
+    · intro j a c' v' ej hj
+      have hr := hw.run c' j a v' hj
+      simp only [Nat.zero_add, Option.isNone_none, if_true, hr, allStep]
+      cases hrun : a.run o c' v' with
+      | mk c1 res =>
+        cases res with
+        | ok v1 => rfl
+        | error e =>
+          simp only [isinst_encE, allErr, wrapObj, encCtx_eq, handle_error_obj]
+          cases e.isParseError <;> cases hdec o (encEs (V := V) c1.errors).length <;> rfl
+    generalize allRun o as 0 c v .none = s' at hf ⊢
+    simp only [AllFinal] at hf
+    simp only [logicalAll]
+    generalize allLoop o as c v = R at hf ⊢
+    obtain ⟨c', v', oe⟩ := R
+    cases oe with
+    | none =>
+      simp only at hf
+      subst hf
+      simp only [C09_gen_raise_error W o c' v', raiseError]
+      by_cases hb : (c'.errors.isEmpty && c'.tmp.isEmpty) = true <;>
+        simp [hb, Except.map, forgetOut, forget_encCtx, forget_encE, forget]
+    | some e =>
+      simp only at hf
+      obtain ⟨k, rfl⟩ := hf
+      have hlen : (encEs (V := V) c'.errors).length = c'.errors.length := by simp [encEs_eq_map]
+      simp only [allErr, hlen, handleError_hdec, afterHandle]
+      cases hdec o c'.errors.length
+      · simp [Except.map, forgetOut, forget_ctxL, forgetL_append, forget_encEs, forgetL, forget_wrap, encCtx_eq, Ctx.push,
+          encEs_append, encEs]
+      · simp [Except.map, forgetOut, forget_ctxL, forgetL_append, forget_encEs, forgetL, forget_wrap, encCtx_eq, Ctx.push,
+          encEs_append, encEs, forget, forgetA, encE_collected]
+      · simp [Except.map, forgetOut, forget_ctxL, forgetL_append, forget_encEs, forgetL, forget_wrap, encCtx_eq, Ctx.push,
+          encEs_append, encEs, forget, forgetA, encE_collected, raise_error_obj, raiseError]
 
 end Utv.GenEq.C09
